@@ -2333,15 +2333,8 @@ class PyCdlib:
         # parent might have.  This means that if we do ever want to unhide this
         # entry, we'll have to do some additional work to give it a real name
         # and link it to the appropriate parent.
-        if self.eltorito_boot_catalog is not None:
-            self._link_eltorito(extent_to_inode)
-
-            # Now that everything has a dirrecord, see if we have a boot
-            # info table.
-            self._check_for_eltorito_boot_info_table(self.eltorito_boot_catalog.initial_entry.inode)
-            for sec in self.eltorito_boot_catalog.sections:
-                for entry in sec.section_entries:
-                    self._check_for_eltorito_boot_info_table(entry.inode)
+        # This is done once every filesystem on the ISO (ISO9660, Joliet, UDF) has
+        # been walked, see below; a boot file may only have a Joliet or UDF name.
 
         # The PVD is finished.  Now look to see if we need to parse the SVD.
         for svd in self.svds:
@@ -2387,6 +2380,18 @@ class PyCdlib:
         if self._has_udf:
             self._parse_udf_descriptors()
             self._walk_udf_directories(extent_to_inode)
+
+        # Now link the El Torito entries to the data they boot; entries that no
+        # filesystem refers to get an Inode of their own (see above).
+        if self.eltorito_boot_catalog is not None:
+            self._link_eltorito(extent_to_inode)
+
+            # Now that everything has a dirrecord, see if we have a boot
+            # info table.
+            self._check_for_eltorito_boot_info_table(self.eltorito_boot_catalog.initial_entry.inode)
+            for sec in self.eltorito_boot_catalog.sections:
+                for entry in sec.section_entries:
+                    self._check_for_eltorito_boot_info_table(entry.inode)
 
         # Now we look for the 'version' volume descriptor, common on ISOs made
         # with genisoimage or mkisofs.  This volume descriptor doesn't have any
